@@ -25,7 +25,7 @@ class C03(PureCheck):
             "'more buffered'); Unicode scalar values (quick: boundaries + 30k sampled; thorough: all 1,112,064) fed one byte "
             "at a time; end to end: keypresses written to a pipe an Input reads from (a multi-byte key at every offset around the "
             "1024-byte read boundary, a descriptor number above 256) and handed over by unget_bytes in several pieces with a "
-            "request after each piece (also with the Input's context entered for each request and left again). Key tables are extracted from the working tree. distinct_nontrivial = nodes x encodings + distinct "
+            "request after each piece (also with the Input's context entered for each request and left again; one keypress per piece with a table key that is a prefix of longer sequences right before one of those). Key tables are extracted from the working tree. distinct_nontrivial = nodes x encodings + distinct "
             "streams + scalars")
     exhaustive = {"quick": False, "thorough": False}
     assumptions = ("the key tables of the working tree define 'recognised sequence' and 'table name'",
@@ -147,6 +147,18 @@ class C03(PureCheck):
                 if k % 2 == 0:
                     # the same with the Input's context entered for each request and left again (on a pty)
                     yield {"op": "pipe", "items": [list(x) for x in items], "enc": enc, "pieces": pieces, "ctx": 1}
+        # one long-lived Input, one keypress per piece and a request after each: a table key that is also the beginning
+        # of longer table sequences (Alt-[, Alt-O, ESC ESC) ends its piece and is a keypress; the next piece is a longer
+        # sequence that starts with the very same bytes and arrives whole
+        pkeys = [K for K in tabseqs if len(K) >= 2 and K in ev.KEYMAP_PREFIXES]
+        for enc in encs:
+            for P in pkeys:
+                longer = [K for K in tabseqs if K.startswith(P) and K != P]
+                for K in (longer if tier == "thorough" else longer[:3] + longer[-3:]) + [b"\x1b[A", b"x"]:
+                    for items in ([b"a", P, K, b"b"], [P, K], [P, P, K], [K, P, K, K], [P, b"z", K]):
+                        yield {"op": "pipe", "items": [list(x) for x in items], "enc": enc, "pieces": [1]}
+                        if len(items) == 2:
+                            yield {"op": "pipe", "items": [list(x) for x in items], "enc": enc, "pieces": [1], "ctx": 1}
         # control bytes as data (the interrupt, quit, suspend, stop / start and end-of-file characters of a tty arrive as plain
         # bytes when the terminal is in raw mode or the bytes come through unget_bytes) - with every Input option that
         # concerns them: sigint_event on and off
